@@ -1,12 +1,17 @@
 from pyvc.runner import register_modules
 
-register_modules("C08", "bounded.C08_api")
+register_modules("C08", "contracts.C08_reply", "bounded.C08_api")
 LEVEL = "other"
-EXPLANATION = ("Finite-domain contract on the real handlers: every catalogued primary (and uncatalogued/malformed ones) x W-bit x "
-               "{equipment, host} is injected as an HSMS frame and the frames written back are compared with the reply rule; "
-               "callback behaviours (reply / None / raise) and sequences are enumerated. Bodies and system bytes are samples.")
+EXPLANATION = ("(VC) the real reply logic SecsHandler._handle_stream_function (with _handle_unknown_functions, the send_response wrapper and "
+               "HsmsHeader.encode inlined) for ALL streams, functions, W-bits, system bytes and bodies: never more than one reply; every reply carries the "
+               "request's system bytes; no callback -> S9F5 exactly when the W-bit is set; callback returns a function -> exactly that function once; returns "
+               "None -> nothing; raises -> exactly one S<stream>F0. (FD) every catalogued primary x handler, registered callbacks of each kind, sequences on one "
+               "handler, executed on real handlers end to end through the protocol (uncatalogued and malformed primaries included). "
+               "Known finding D24: a primary without W-bit whose callback returns a function is answered anyway.")
 ASSUMPTIONS = [
-    "harness: MemConnection, SyncDispatcher, VirtualTimer (substitutions from outside, repository untouched)",
+    "call-outs assumed at call sites of the VC unit: the callback registry (CallbackHandler.__contains__/__getattr__, any answer), the user callback (returns a function object, None, or raises), "
+    "the catalogue lookup stream_function(s, f) and the construction of a function object (C03), Protocol.send_response records the reply handed to the protocol",
+    "harness for FD: MemConnection, SyncDispatcher, VirtualTimer (substitutions from outside, repository untouched)",
     "user-registered callbacks are assumed to return the matching secondary; which secondary a library handler returns is checked only as function+1",
     "known finding D24: replies are sent for primaries without W-bit when the callback returns a message",
 ]
